@@ -129,9 +129,10 @@ Definition enc_view (v : option view) : mres bytes :=
            vvb ++ put_u16 (v_proto v) ++ put_i32 (v_maxvv v))
   end.
 
-(** the member loop runs [cnt] times, [cnt] an UNCHECKED uint32 from the wire; every iteration reads at
-    least five bytes, so the number of iterations is bounded by the input: the fuel is the input length
-    and its exhaustion ([MEFuel]) is proved unreachable.  A member whose presence byte is 0 is read and
+(** the member loop runs [cnt] times, [cnt] a uint32 from the wire (at most a fifth of the remaining
+    input, see [dec_view]); every iteration reads at least five bytes, so the number of iterations is
+    bounded by the input: the fuel is the input length and its exhaustion ([MEFuel]) is proved
+    unreachable.  A member whose presence byte is 0 is read and
     NOT inserted. *)
 Fixpoint dec_members (fuel : nat) (cnt : N) (acc : members) : dec members :=
   if cnt =? 0 then dret acc else
@@ -147,7 +148,9 @@ Definition dec_view : dec (option view) :=
   let+ n := d_u32 in
   if n =? 0 then dret None else
   let+ id := d_str in let+ ep := d_i64 in let+ ts := d_i64 in let+ memlen := d_u32 in
-  let+ _ := dalloc (slot_member * memlen) in        (* make(map[string]*NodeState, memLen): NO cap *)
+  (* every member takes at least five bytes: a count above RemainingSize()/5 is rejected before the allocation *)
+  let+ _ := (fun bs => if N.of_nat (length bs) / 5 <? memlen then (0, MErr (ME EEOF)) else (0, MOk (tt, bs))) in
+  let+ _ := dalloc (slot_member * memlen) in        (* make(map[string]*NodeState, memLen) *)
   let+ ms := (fun bs => dec_members (S (length bs)) memlen ∅ bs) in
   let+ h := d_i32 in let+ u := d_i32 in let+ q := d_i32 in
   let+ vvec := d_vv in
